@@ -401,6 +401,7 @@ def run(ctx):
     ah_esp_spi_width(ctx, 'W2')
     check_substructures(ctx)
     check_header(ctx, esc)
+    parse_refusals(ctx, 'W5')
     check_generic_header(ctx, esc)
 
     # Encrypted payload (3.14): the Integrity Checksum Data field has the length of the negotiated transform's ICV
@@ -956,6 +957,38 @@ def check_substructures(ctx):
                 body[2] == ('elem', seq, 0)
             ctx.check(ok2, 'W2', '%s: length = element body + 4, and the body follows the header' % title, key=('W2', title, 'length'),
                       site=ctx.site(tb, tb.node), detail={'found': tq.text(a[3]) if len(a) == 4 else None})
+
+
+def parse_refusals(ctx, rule):
+    """Message.parse itself refuses a datagram for exactly two reasons: the fixed header does not unpack, and the checksum does not
+    match (everything else is refused by the payload parsers it calls).  Any further `raise` in it is a new class of datagrams that no
+    longer decode - among them, unless the condition is unsatisfiable, messages this very implementation (or a conformant peer)
+    produces: a length test that assumes the ICV is a whole number of cipher blocks refuses every message protected with HMAC-SHA1-96"""
+    from .. import bounds
+    pf = ctx.func('message.Message.parse')
+    P = ctx.sval(pf)
+    n = 0
+    for pc, t, node in P.raises:
+        pc = strip_ids(tuple(pc))
+        if not pc:
+            ctx.bad(rule, (rule, 'parse-refusal', 'unconditional'), 'Message.parse raises unconditionally', ctx.site(pf, node), {})
+            continue
+        last, pol = pc[-1]
+        if last[0] == 'caught':
+            n += 1
+            continue            # a failed unpack of the fixed header, turned into a protocol error
+        if tq.find(last, lambda y: tq.is_call(y) and isinstance(y[1], str) and y[1].endswith('Integrity.compute')):
+            n += 1
+            continue            # the checksum comparison
+        goal = last if not pol else ('not', last)
+        try:
+            impossible = bounds.proves(goal, pc[:-1])
+        except Exception:
+            impossible = False
+        ctx.check(impossible, rule, 'Message.parse refuses a datagram only for a header that does not unpack or a checksum that does not '
+                  'match (a further refusal must be unsatisfiable): `%s`' % tq.text(last, 120), key=(rule, 'parse-refusal', tq.text(last, 80)),
+                  site=ctx.site(pf, node), detail={'raised when': ('' if pol else 'not ') + tq.text(last, 200)})
+    ctx.floor('%s refusals of Message.parse (header, checksum)' % rule, n, 2, rule=rule)
 
 
 def check_header(ctx, esc):
